@@ -284,6 +284,53 @@ def calls_in(node: ast.AST, name: Optional[str] = None) -> List[ast.Call]:
     return out
 
 
+class Iteration:
+    """The innermost `for` statement or comprehension clause around a node: what is iterated, the loop variable, the construct."""
+
+    def __init__(self, iter_: ast.AST, target: ast.AST, node: ast.AST):
+        self.iter, self.target, self.node = iter_, target, node
+
+
+def iteration_around(node: ast.AST) -> Optional[Iteration]:
+    p = parent(node)
+    child = node
+    while p is not None and not isinstance(p, (ast.FunctionDef, ast.AsyncFunctionDef, ast.Lambda)):
+        if isinstance(p, ast.For) and any(child is x for x in p.body):
+            return Iteration(p.iter, p.target, p)
+        if isinstance(p, (ast.ListComp, ast.SetComp, ast.GeneratorExp, ast.DictComp)) and not any(child is g for g in p.generators):
+            g = p.generators[-1]
+            return Iteration(g.iter, g.target, p)
+        child, p = p, parent(p)
+    return None
+
+
+def resolve_local(fn: ast.AST, expr: ast.AST, depth: int = 3) -> ast.AST:
+    """`expr` with the locals of `fn` that have exactly one plain binding `v = E` replaced by E (a private copy; for reading only)."""
+    stores: Dict[str, List[ast.AST]] = {}
+    for n in ast.walk(fn):
+        if isinstance(n, ast.Name) and isinstance(n.ctx, (ast.Store, ast.Del)):
+            stores.setdefault(n.id, []).append(n)
+    defs: Dict[str, ast.AST] = {}
+    for a in ast.walk(fn):
+        if isinstance(a, ast.Assign) and len(a.targets) == 1 and isinstance(a.targets[0], ast.Name) and len(stores.get(a.targets[0].id, [])) == 1:
+            defs[a.targets[0].id] = a.value
+        elif isinstance(a, ast.AnnAssign) and a.value is not None and isinstance(a.target, ast.Name) and len(stores.get(a.target.id, [])) == 1:
+            defs[a.target.id] = a.value
+
+    class _S(ast.NodeTransformer):
+        def visit_Name(self, node):
+            if isinstance(node.ctx, ast.Load) and node.id in defs:
+                return ast.parse(ast.unparse(defs[node.id]), mode="eval").body
+            return node
+    out = ast.parse(ast.unparse(expr), mode="eval").body
+    for _ in range(depth):
+        before = ast.unparse(out)
+        out = ast.fix_missing_locations(_S().visit(out))
+        if ast.unparse(out) == before:
+            break
+    return out
+
+
 def closure_functions(fn: ast.AST, depth: int = 3) -> List[ast.AST]:
     """`fn` and the methods of its class it reaches through `self.h(...)` calls (at most `depth` levels): the unit a rule inspects
     when a search or an update may have been moved into a private helper."""
